@@ -1879,6 +1879,9 @@ class Engine:
                     elts = None
                     if isinstance(b, tuple) and b and b[0] in ("tuple", "set"):
                         elts = tuple(sorted(b[1], key=repr))
+                        if elts and all(isinstance(x, Lin) or (_is_k(x) and isinstance(x[1], float) and x[1] == int(x[1])) for x in elts) and not isinstance(a, S):
+                            elts = tuple(sorted((_num(x) for x in elts), key=repr))
+                            a = _num(a)            # membership in a set of numbers: the left side is a number too
                     t_ = ("in", a, elts, False) if elts is not None else ("cmp", "In", a, b)
                     tests.append(("not", t_) if on == "NotIn" else t_)
                     continue
